@@ -156,6 +156,16 @@ def main(argv=None):
             print(json.dumps(json.load(f), indent=1))
         return 0
     t0 = time.time()
+    # an analysis that does not finish decides nothing: give up (fail closed) instead of hanging
+    try:
+        import signal
+
+        def _too_long(signum, frame):
+            raise TimeoutError("no result after %s s" % os.environ.get("VERIF_TIMEOUT", "1500"))
+        signal.signal(signal.SIGALRM, _too_long)
+        signal.alarm(int(os.environ.get("VERIF_TIMEOUT", "1500")))
+    except (ValueError, AttributeError):
+        pass
     ctx = Ctx(pid, tier, seed)
     res = Result()
     fatal = None
